@@ -47,11 +47,24 @@ class RichSwnmRebuilder:
         switches_in_placement_order = list(switches_in_swnm_with_names) + [
             x for x in used_switches if id(x) not in named_switch_objects
         ]
+        names_given_by_triggers: dict[int, str] = {}
         for used_switch in switches_in_placement_order:
             if used_switch.index is not None:
-                if not cls._determine_if_switch_has_no_custom_name(
-                    used_switch
-                ) or cls._determine_if_switch_has_no_custom_name(
+                if not cls._determine_if_switch_has_no_custom_name(used_switch):
+                    if id(used_switch) not in named_switch_objects:
+                        # two different names for one switch cannot both be stored
+                        name_so_far = names_given_by_triggers.setdefault(
+                            used_switch.index, used_switch.custom_name.value
+                        )
+                        if name_so_far != used_switch.custom_name.value:
+                            msg = (
+                                f"Switch {used_switch.index} is given two different names: "
+                                f"{name_so_far!r} and {used_switch.custom_name.value!r}."
+                            )
+                            cls._LOG.error(msg)
+                            raise ValueError(msg)
+                    new_switches[used_switch.index] = used_switch
+                elif cls._determine_if_switch_has_no_custom_name(
                     new_switches[used_switch.index]
                 ):
                     new_switches[used_switch.index] = used_switch
